@@ -146,6 +146,15 @@ def main():
     progs = []
     for i in range(nprog):
         f = os.path.join(wd, 'mp%d.c' % i); open(f, 'w').write(gen_macro_program()); progs.append(f)
+    # a '#' that results from macro replacement is an ordinary token (6.10.3.4p3): at the beginning of a line, after tokens, through a function-like macro
+    for i in range(12 if run.quick() else 60):
+        ls = ['#define H #', '#define EMPTY', '#define ID(x) x', '#define H2 H define', 'int a%d;' % i]
+        for _ in range(rng.randint(2, 6)):
+            ls.append(rng.choice(['H define X%d 1', 'ID(H) define Y%d 2', 'EMPTY # define Z%d 3', 'H2 W%d 4', 'int b%d; H define V%d 5', 'H', 'H include "nonexistent.h"', 'ID(#) undef X%d', 'X%d Y%d Z%d', 'EMPTY EMPTY H if 0']) .replace('%d', str(rng.randint(0, 3))))
+        ls.append('X0 Y0 Z0 W0 V0')
+        f = os.path.join(wd, 'hp%d.c' % i); open(f, 'w').write('\n'.join(ls) + '\n'); progs.append(f)
+    # known finding probe: the same token as the very first token of the output has no line to be appended to
+    flead = os.path.join(wd, 'leading_hash.c'); open(flead, 'w').write('#define H #\nH define X 1\nX\n'); progs.append(flead)
     def one_prog(f):
         pp, err = dump(chibi, f, False)                       # what the compiler proper consumes
         if pp is None: return f, 'skip', err                   # the generator may produce preprocessing errors (bad invocations): not this property
@@ -170,7 +179,8 @@ def main():
         if st != 'ok':
             text = open(f).read()
             run.violation(dict(kind='E-output-' + st, detail=info[-400:], program=text, e_output=open(f + '.i').read() if os.path.exists(f + '.i') else None,
-                               replay='chibicc -E prog.c > prog.i; compare the tokens of prog.i with the tokens the compiler consumes'), dict(area='E-output', what=st))
+                               replay='chibicc -E prog.c > prog.i; compare the tokens of prog.i with the tokens the compiler consumes'),
+                          dict(area='E-output', what=st, construct='leading-hash' if f == flead else 'macro-program'))
     if progs: samples.append({'macro-program': open(progs[0]).read()[:400]})
     # ---------- (c) compile equivalence on valid programs ----------
     valid = '''#define N -1
